@@ -231,7 +231,7 @@ def write_baseline(prop, gens):
   out = {}
   for g in gens:
     out[g['unit']] = dict(hash=g['hash'], proved=sorted(set(stable(ob['name']) for ob in g['obligations'] if ob['status'] == 'proved')),
-                          anchors=g.get('anchor_lines', {}))
+                          anchors=g.get('anchor_lines', {}), cover=(g.get('cover') is True))
   with open(os.path.join(ROOT, 'baseline', prop + '.json'), 'w') as f:
     json.dump(out, f, indent=1, sort_keys=True)
 
@@ -363,7 +363,10 @@ def run_check(prop, tier, repo, jobs, seed, record_baseline=False):
   expected = getattr(pmod, 'MIN_OBLIGATIONS', 1)
   if n_ob < expected and not errors:
     lines.append('UNDECIDED property=%s only %d obligations generated (expected >= %d)' % (prop, n_ob, expected))
-  covers = [g for g in gens if g['cover'] is not True and not g['error']]
+  # an inconclusive cover check (solver timeout under load) on text whose cover check succeeded when the baseline was
+  # recorded is not news
+  covers = [g for g in gens if g['cover'] is not True and not g['error']
+            and not (baseline.get(g['unit'], {}).get('hash') == g['hash'] and baseline.get(g['unit'], {}).get('cover'))]
   for g in covers:
     lines.append('UNDECIDED property=%s unit=%s precondition cover check inconclusive' % (prop, g['unit']))
   if violations:
